@@ -286,6 +286,13 @@ class BMRoles:
         if not ob.need(set(self.gates) == {"tWTP", "tRAS", "tRC"}, "timing gates of BankMachine not identified (found %s)" % sorted(self.gates)):
             return
         self.edges, self.delayed = fsm_graph(v, self.fsm)
+        # refresh: grant sites (value form or guard form) and the hold states (no command, left only when the refresher releases its request)
+        self.grant_sites = {s: v.asserted(v.fsm_leaves(self.fsm, s), self.refresh_gnt) for s in self.fsm.states}
+        self.grant_sites = {s: ls_ for s, ls_ in self.grant_sites.items() if ls_}
+        rrk = "~" + key(self.refresh_req) if self.refresh_req is not None else None
+        self.hold_states = {s for s in self.fsm.states if not v.asserted(v.fsm_leaves(self.fsm, s), cmdk + ".valid")
+                            and [1 for (src, d, l) in self.edges if src == s] and all(rrk in v.guard_keys(l, False) for (src, d, l) in self.edges if src == s)}
+        self.refresh_states = set(self.grant_sites) & self.hold_states
         self.ok = True
 
     def gate_ready(self, role):
@@ -327,6 +334,19 @@ def bm_gates(ctx):
                 ob.refute("%s:%s" % (s, "+".join(missing)), "in bank FSM state %s the %s is not gated by %s.ready (guards: %s) - "
                           "a precharge can follow an ACT/WRITE too early" % (s, what, "/".join(missing), sorted(g)), l.loc,
                           {"state": s, "site": what, "guards": sorted(g)})
+    # a refresh grant given from any other state (e.g. straight from the idle / column state) lets the precharge-all follow just the same
+    for s, gl in sorted(R.grant_sites.items()):
+        if s in R.closing_states:
+            continue
+        for l in gl:
+            nsites += 1
+            g = v.guard_keys(l)
+            missing = [nm for k, nm in need.items() if k not in g]
+            ob.instance("state %s: refresh grant" % s, {"guards": sorted(g), "missing": missing})
+            if missing:
+                ob.refute("%s:%s" % (s, "+".join(missing)), "in bank FSM state %s the refresh grant is not gated by %s.ready (guards: %s) - "
+                          "the precharge-all can follow an ACT/WRITE too early" % (s, "/".join(missing), sorted(g)), l.loc,
+                          {"state": s, "site": "refresh grant", "guards": sorted(g)})
     # ACT gated by tRC
     for s, role in R.sites.items():
         if role == "ACT":
